@@ -212,6 +212,20 @@ func (e Engine) Exec(sci interface{}, opt harness.ExecOpts) *harness.Outcome {
 		wg.Wait()
 		for g := 0; g < sc.N; g++ {
 			if seq := one(g); dumps[g] != seq {
+				if strings.HasPrefix(seq, "ERROR:") && strings.HasPrefix(dumps[g], "ERROR:") {
+					// a source with two independent errors: which one is reported
+					// (hence the line) follows the map order of the analysis even
+					// when compiled alone - the property speaks about code objects.
+					// Only a location the solo compilation never produces counts.
+					seen := map[string]bool{seq: true}
+					for k := 0; k < 200 && !seen[dumps[g]]; k++ {
+						seen[one(g)] = true
+					}
+					if seen[dumps[g]] {
+						out.Probe("rejected_source_error_choice_varies_alone")
+						continue
+					}
+				}
 				out.Violate("nondeterministic-code", "race|code", "concurrent compile %d (of source %d) gave %.200q, the same compilation alone gives %.200q", g, g%len(sc.Sources), dumps[g], seq)
 			}
 		}
